@@ -353,15 +353,18 @@ where
 
         let volume_idx = data.get_volume_by_id(volume)?;
 
-        match &mut data.open_volumes[volume_idx].volume_type {
-            VolumeType::Fat(fat) => {
-                fat.update_info_sector(&mut data.block_cache)?;
-            }
-        }
+        // Like close_file: the volume is closed even if bringing the
+        // information sector up to date fails. `Volume::close` and dropping a
+        // `Volume` consume the only handle their user has, so a volume that
+        // stayed registered after a failed close could never be closed or
+        // opened again.
+        let update_result = match &mut data.open_volumes[volume_idx].volume_type {
+            VolumeType::Fat(fat) => fat.update_info_sector(&mut data.block_cache),
+        };
 
         data.open_volumes.swap_remove(volume_idx);
 
-        Ok(())
+        update_result
     }
 
     /// Look in a directory for a named file.
